@@ -157,7 +157,9 @@ func genPlan(t *rapid.T) Plan {
 
 // ---- observable state (reading rule 7) ------------------------------------------------------------
 
-func nodeState(n *cluster.CNode) string {
+// noLocks: leave the lock table out (a halt lock held for the whole plan is released by
+// valid requests of the plan itself, asynchronously to their answers)
+func nodeState(n *cluster.CNode, noLocks ...bool) string {
 	var sb strings.Builder
 	all, _ := n.M.ReadDir()
 	var names []string
@@ -188,6 +190,9 @@ func nodeState(n *cluster.CNode) string {
 		}
 		fmt.Fprintf(&sb, "db %q pos=%s image=%s ltx=%v remoteHalt=%v locks=", db.Name(), db.Pos(), sum, files, db.HasRemoteHaltLock())
 		for _, lt := range litefs.VerifLockTypes {
+			if len(noLocks) > 0 && noLocks[0] {
+				break
+			}
 			h := db.VerifLockHolder(lt)
 			fmt.Fprintf(&sb, "%d:%d/%d ", int(lt)%1000, int(h.State), h.SharedN)
 		}
@@ -577,7 +582,7 @@ func runPlan(c *pbt.Case, p Plan) {
 		}
 		var before [3]string
 		for j, x := range w.nodes {
-			before[j] = nodeState(x)
+			before[j] = nodeState(x, p.Hold && j == 0)
 		}
 		client := w.h1
 		if r.H2 {
@@ -628,7 +633,7 @@ func runPlan(c *pbt.Case, p Plan) {
 			for tries := 0; tries < 40; tries++ {
 				same := true
 				for j, x := range w.nodes {
-					after[j] = nodeState(x)
+					after[j] = nodeState(x, p.Hold && j == 0)
 					if after[j] != before[j] {
 						same = false
 					}
